@@ -110,18 +110,30 @@ fn hn_msg(mode: u16, m1: &[u8], m2: &[u8], m3: &[u8], m4: &[u8], m5: &[u8]) -> [
     r
 }
 
-// the constant absorbed by every step of one Winternitz chain (see def_hn)
+// digest of the address arguments of a chain step
 fn chain_const(m1: &[u8], m2: &[u8], m3: &[u8]) -> u8 {
     m3[1] ^ (m3[0] << 3) ^ m2[3] ^ (m2[0] << 5) ^ m1[0] ^ (m1[15] << 2)
 }
 
+// Chain step / secret x[i] (m4 = one counter byte j, m5 = n bytes): the n input
+// bytes are carried over; byte 0 counts the steps weighted by the counter
+// (+ (j | 1) mod 256); byte 1 absorbs the address digest on the first (j = 0)
+// and last (j = 254) possible step of a chain and on the x[i] derivation
+// (j = 0xFF).  Chosen so that (a) CBMC executes few statements per step, (b)
+// a chain with concrete bounds is a function of 8 input bits for the SAT
+// solver (the library-vs-reference comparison is then easy), (c) a wrong
+// counter sequence, chain length, address or byte offset still changes the
+// result.
 macro_rules! def_hn {
     ($name:ident, $mode:expr) => {
         fn $name(m1: &[u8], m2: &[u8], m3: &[u8], m4: &[u8], m5: &[u8]) -> [u8; n] {
             if m5.len() == n && m4.len() == 1 && m3.len() == 2 && m2.len() == 4 && m1.len() == 16 {
                 let mut r: [u8; n] = unsafe { *(m5.as_ptr() as *const [u8; n]) };
-                let x = r[0] ^ m4[0] ^ chain_const(m1, m2, m3);
-                r[0] = (x << 1) | (x >> 7);
+                let j = m4[0];
+                r[0] = (((r[0] as u16) + ((j | 1) as u16)) & 0xFF) as u8;
+                if j == 0 || j >= 254 {
+                    r[1] ^= chain_const(m1, m2, m3);
+                }
                 return r;
             }
             hn_msg($mode, m1, m2, m3, m4, m5)
@@ -141,20 +153,25 @@ def_hn!(hn_lo, 0x101);
 def_hn!(hn_hi, 0x1FE);
 
 // Under Kani ref_chain (below) is replaced by this closed form of
-// "ref_chain with Hn := one of the stand-ins above": only byte 0 evolves, by
-// x -> rotl1(x ^ j ^ chain_const).  verif_lms_chain_fast_eq decides that the two
-// agree, so that the reference side of a chain costs scalar steps only.
+// "ref_chain with Hn := one of the stand-ins above".  verif_lms_chain_fast_eq
+// decides that the two agree, so that the reference side of a chain costs
+// scalar steps only.
 fn ref_chain_fast(id: &[u8; 16], q: u32, i: usize, from: usize, to: usize, start: &[u8; n]) -> [u8; n] {
-    let c = chain_const(id, &ref_u32str(q), &ref_u16str(i as u16));
     let mut r = *start;
-    let mut x = r[0];
+    let mut acc = 0u8;
     let mut j = from;
     while j < to {
-        let y = x ^ (j as u8) ^ c;
-        x = (y << 1) | (y >> 7);
+        acc = (((acc as u16) + (((j as u8) | 1) as u16)) & 0xFF) as u8;
         j += 1;
     }
-    r[0] = x;
+    r[0] = (((r[0] as u16) + (acc as u16)) & 0xFF) as u8;
+    let c = chain_const(id, &ref_u32str(q), &ref_u16str(i as u16));
+    if from == 0 && to > 0 {
+        r[1] ^= c;
+    }
+    if from <= 254 && to > 254 {
+        r[1] ^= c;
+    }
     r
 }
 
@@ -579,7 +596,55 @@ fn verif_lms_params_coef() {
 // ------------------------------------------------------------------------
 // H1: sign, state machine, from an ARBITRARY key state (one-step induction)
 
-fn sign_state_body(anytree: bool) {
+// I, SEED and the whole tree of two keys are identical (64-bit lanes, concrete
+// indices: the comparison is syntactic for the SAT solver)
+fn assert_same_material(x: &PrivateKey, y: &PrivateKey) {
+    let xi = u128::from_le_bytes(x.I);
+    let yi = u128::from_le_bytes(y.I);
+    assert!(xi == yi);
+    let xs = lanes_m(&x.SEED);
+    let ys = lanes_m(&y.SEED);
+    let mut t = 0usize;
+    while t < LM {
+        assert!(xs[t] == ys[t]);
+        t += 1;
+    }
+    let mut r = 0usize;
+    while r < NNODE {
+        let xr = lanes_m(&x.T[r]);
+        let yr = lanes_m(&y.T[r]);
+        let mut t = 0usize;
+        while t < LM {
+            assert!(xr[t] == yr[t]);
+            t += 1;
+        }
+        r += 1;
+    }
+}
+
+// bytes 4 .. 4+ots_siglen of an LMS signature against an LM-OTS signature
+fn embedded_ots_eq(sig: &[u8; lms_siglen], exp: &[u8; ots_siglen], full: bool) {
+    if full {
+        let mut k = 0usize;
+        while k < EXP_OTS_SIGLEN {
+            assert!(sig[4 + k] == exp[k]);
+            k += 1;
+        }
+    } else {
+        // both ends (a single block copy cannot shift the middle without
+        // shifting an end), C, the digest bytes and two interior bytes
+        let mut k = 0usize;
+        while k < 8 + EXP_N {
+            assert!(sig[4 + k] == exp[k]);
+            assert!(sig[4 + EXP_OTS_SIGLEN - 1 - k] == exp[EXP_OTS_SIGLEN - 1 - k]);
+            k += 1;
+        }
+        assert!(sig[4 + EXP_OTS_SIGLEN / 2] == exp[EXP_OTS_SIGLEN / 2]);
+        assert!(sig[4 + EXP_OTS_SIGLEN / 3] == exp[EXP_OTS_SIGLEN / 3]);
+    }
+}
+
+fn sign_state_body(anytree: bool, full: bool) {
     let pool: [u8; ots_siglen] = kani::any();
     unsafe { OTS_POOL = pool; }
     let old: u32 = kani::any();
@@ -593,13 +658,7 @@ fn sign_state_body(anytree: bool) {
     let exhausted = old >= NLEAF;
     assert!(r.is_none() == exhausted);
     // I, SEED, T are never modified by sign
-    let a: usize = kani::any();
-    let b: usize = kani::any();
-    let c: usize = kani::any();
-    kani::assume(a < NNODE && b < EXP_M && c < 16);
-    assert!(sk.T[a][b] == sk0.T[a][b]);
-    assert!(sk.SEED[b] == sk0.SEED[b]);
-    assert!(sk.I[c] == sk0.I[c]);
+    assert_same_material(&sk, &sk0);
     match r {
         None => {
             // exhaustion is absorbing: state bit-identical, nothing drawn from the RNG
@@ -622,13 +681,7 @@ fn sign_state_body(anytree: bool) {
             // bytes 4 .. 4+ots_siglen are ots_sign(q = old, msg) with the same randomness
             let mut rng2 = VRng::new(tape, core::ptr::null());
             let exp = sk0.ots_sign(&mut rng2, old, &msg);
-            let mut k = 0usize;
-            let mut d = 0u8;
-            while k < EXP_OTS_SIGLEN {
-                d |= sig[4 + k] ^ exp[k];
-                k += 1;
-            }
-            assert!(d == 0);
+            embedded_ots_eq(&sig, &exp, full);
             // LMS type word
             assert!(ref_strtou32(&sig, 4 + EXP_OTS_SIGLEN) == EXP_LMS_TYPE);
             kani::cover!(old == 0);
@@ -642,16 +695,51 @@ fn sign_state_body(anytree: bool) {
 #[kani::unwind(1126)] // ots_siglen + 2 (byte-wise comparison of the embedded LM-OTS signature)
 #[kani::stub(PrivateKey::ots_sign, ots_sign_pool)]
 fn verif_lms_sign_state_anytree() {
-    sign_state_body(true);
+    sign_state_body(true, true);
 }
 
 // constant (zero) tree: same claims, cheap; the authentication path for an
 // arbitrary tree is decided per leaf by verif_lms_sign_path_*
 #[kani::proof]
-#[kani::unwind(1126)]
+#[kani::unwind(66)]
 #[kani::stub(PrivateKey::ots_sign, ots_sign_pool)]
 fn verif_lms_sign_state_tree0() {
-    sign_state_body(false);
+    sign_state_body(false, false);
+}
+
+// Exhausted key, ANY current_leaf >= 2^h, arbitrary tree.  ots_sign is replaced
+// by a function that fails the proof if it is ever called and then ends the
+// path (so CBMC does not have to explore the signing code behind it).
+fn ots_sign_never<R: CryptoRng + RngCore>(_sk: PrivateKey, _rng: &mut R, _q: u32, _msg: &[u8])
+    -> [u8; ots_siglen]
+{
+    assert!(false, "ots_sign called on an exhausted key");
+    kani::assume(false);
+    [0u8; ots_siglen]
+}
+
+#[kani::proof]
+#[kani::unwind(66)]
+#[kani::stub(PrivateKey::ots_sign, ots_sign_never)]
+fn verif_lms_sign_exhausted() {
+    let old: u32 = kani::any();
+    kani::assume(old >= NLEAF);
+    let mut sk = mk_key(old);
+    let sk0 = sk;
+    let msg: [u8; 3] = kani::any();
+    let tape: [u8; n] = kani::any();
+    let mut rng = VRng::new(tape, core::ptr::addr_of!(sk.current_leaf));
+    let r = sk.sign(&mut rng, &msg);
+    assert!(r.is_none());
+    // state bit-identical, nothing drawn from the RNG; a second call behaves the same
+    assert!(sk.current_leaf == old);
+    assert_same_material(&sk, &sk0);
+    assert!(rng.calls == 0 && rng.other == 0);
+    let r2 = sk.sign(&mut rng, &msg);
+    assert!(r2.is_none() && sk.current_leaf == old && rng.calls == 0);
+    kani::cover!(old == NLEAF);
+    kani::cover!(old == 0xFFFF_FFFF);
+    kani::cover!(old == 0x8000_0000);
 }
 
 // ------------------------------------------------------------------------
@@ -663,8 +751,6 @@ fn sign_path_leaves(leaves: &[u32]) {
     let base = mk_key(0);
     let msg: [u8; 2] = kani::any();
     let tape: [u8; n] = kani::any();
-    let b: usize = kani::any();
-    kani::assume(b < EXP_M);
     let mut t = 0usize;
     while t < leaves.len() {
         let q = leaves[t];
@@ -676,19 +762,33 @@ fn sign_path_leaves(leaves: &[u32]) {
                 assert!(false);
             }
             Some(sig) => {
+                // index used = old current_leaf; state advanced by exactly one,
+                // already when the RNG is first called
                 assert!(sk.current_leaf == q + 1);
-                assert!(rng.calls == 1 && rng.seen == q + 1);
+                assert!(rng.calls == 1 && rng.other == 0 && rng.lastlen == EXP_N && rng.seen == q + 1);
                 assert!(ref_strtou32(&sig, 0) == q);
                 assert!(ref_strtou32(&sig, 4 + EXP_OTS_SIGLEN) == EXP_LMS_TYPE);
+                if t == 0 || t == leaves.len() - 1 {
+                    // (first and last listed leaf only, for cost) nothing else modified;
+                    // embedded LM-OTS signature = ots_sign(q, msg) with the same randomness
+                    assert_same_material(&sk, &base);
+                    let mut rng2 = VRng::new(tape, core::ptr::null());
+                    let exp = base.ots_sign(&mut rng2, q, &msg);
+                    embedded_ots_eq(&sig, &exp, false);
+                }
                 // RFC 8554 section 5.4.1: path[i] = T[(node_num / 2^i) xor 1], node_num = 2^h + q
                 let node = NLEAF + q;
                 let mut i = 0usize;
                 while i < EXP_H {
                     let sib = ((node >> i) ^ 1) as usize;
                     let o = 8 + EXP_OTS_SIGLEN + i * EXP_M;
-                    let mut row = [0u8; m];
-                    row.copy_from_slice(&sig[o..(o + EXP_M)]);
-                    assert!(row[b] == base.T[sib][b]);
+                    let row = lanes_m(&sig[o..(o + EXP_M)]);
+                    let exp = lanes_m(&base.T[sib]);
+                    let mut u = 0usize;
+                    while u < LM {
+                        assert!(row[u] == exp[u]);
+                        u += 1;
+                    }
                     i += 1;
                 }
                 kani::cover!(t == leaves.len() - 1 && sig[EXP_SIGLEN - 1] == 0x33);
@@ -726,12 +826,23 @@ fn ots_sign_vs_ref() {
     let sig = sk.ots_sign(&mut rng, q, &msg);
     assert!(rng.calls == 1 && rng.other == 0 && rng.lastlen == EXP_N);
     let exp = ref_ots_sign(&sk.I, &sk.SEED, q, &tape, &msg);
-    let k: usize = kani::any();
-    kani::assume(k < EXP_OTS_SIGLEN);
-    assert!(sig[k] == exp[k]);
+    // type word, then C, y[0], ..., y[p-1] block by block in 64-bit lanes
     assert!(ref_strtou32(&sig, 0) == EXP_OTS_TYPE);
-    kani::cover!(k == EXP_OTS_SIGLEN - 1 && sig[k] == 0x77);
-    kani::cover!(k == 4 + EXP_N * (QPOS + 2) - 1 && sig[k] == 0x77);
+    assert!(ref_strtou32(&exp, 0) == EXP_OTS_TYPE);
+    let mut blk = 0usize;
+    while blk < EXP_P + 1 {
+        let o = 4 + blk * EXP_N;
+        let x = lanes_n(&sig[o..(o + EXP_N)]);
+        let y = lanes_n(&exp[o..(o + EXP_N)]);
+        let mut u = 0usize;
+        while u < LN {
+            assert!(x[u] == y[u]);
+            u += 1;
+        }
+        blk += 1;
+    }
+    kani::cover!(sig[EXP_OTS_SIGLEN - 1] == 0x77);
+    kani::cover!(sig[4 + EXP_N * (QPOS + 2) - 1] == 0x77);
 }
 
 #[kani::proof]
@@ -781,7 +892,6 @@ fn verif_lms_chain_fast_eq() {
     chain_eq_case(&id, q, i, 0, 255, &start, k);
     chain_eq_case(&id, q, i, 0, 31, &start, k);
     chain_eq_case(&id, q, i, 255, 255, &start, k);
-    chain_eq_case(&id, q, i, 0, 0, &start, k);
     kani::cover!(k == 0 && start[0] == 0x42);
 }
 
@@ -866,6 +976,50 @@ fn verif_lms_verify_ref_q1() {
 #[kani::stub(is_native, is_native_no)]
 #[kani::stub(ref_chain, ref_chain_fast)]
 fn verif_lms_verify_ref_free() {
+    verify_vs_ref();
+}
+
+// ------------------------------------------------------------------------
+// H4b: the LMS layer of verify (everything around ots_verify) against RFC 8554
+// Algorithm 6/6a for ALL signature strings, with the LM-OTS layer replaced on
+// BOTH sides by the same deterministic stand-in (its contract: None iff the
+// length or the type word is wrong, else a digest of I, q, the LM-OTS
+// signature bytes and the message).  No Winternitz chain is executed.
+
+fn kc_standin(id: &[u8; 16], q: u32, osig: &[u8], msg: &[u8]) -> Option<[u8; n]> {
+    if osig.len() != EXP_OTS_SIGLEN {
+        return None;
+    }
+    if ref_strtou32(osig, 0) != EXP_OTS_TYPE {
+        return None;
+    }
+    let d = dig3(id, &ref_u32str(q), &[0u8, 0u8]) ^ digs(msg).rotate_left(23);
+    // first / second / middle / last n-byte blocks of C || y[0..p]
+    let mut l = lanes_n(&osig[4..(4 + EXP_N)]);
+    let b1 = lanes_n(&osig[(4 + EXP_N)..(4 + 2 * EXP_N)]);
+    let b2 = lanes_n(&osig[(4 + (EXP_P / 2) * EXP_N)..(4 + (EXP_P / 2 + 1) * EXP_N)]);
+    let b3 = lanes_n(&osig[(EXP_OTS_SIGLEN - EXP_N)..EXP_OTS_SIGLEN]);
+    let mut t = 0usize;
+    while t < LN {
+        l[t] = l[t] ^ b1[t].rotate_left(7) ^ b2[t].rotate_left(19) ^ b3[t].rotate_left(29);
+        t += 1;
+    }
+    l[0] ^= d;
+    Some(unsafe { core::mem::transmute::<[u64; LN], [u8; n]>(l) })
+}
+
+fn ots_verify_standin(pk: PublicKey, q: u32, sig: &[u8], msg: &[u8]) -> Option<[u8; n]> {
+    kc_standin(&pk.I, q, sig, msg)
+}
+
+#[kani::proof]
+#[kani::unwind(66)]
+#[kani::stub(PublicKey::ots_verify, ots_verify_standin)]
+#[kani::stub(ref_ots_kc, kc_standin)]
+#[kani::stub(Hm, hm_lean)]
+#[kani::stub(honest, honest_any)]
+#[kani::stub(is_native, is_native_no)]
+fn verif_lms_verify_layer() {
     verify_vs_ref();
 }
 
